@@ -632,16 +632,13 @@ type TIdxEdges3 struct {
 type TWide struct {
 	A bool  `plenc:"1"`
 	B bool  `plenc:"2"`
-	K uint8 `plenc:"11"`
+	I uint8 `plenc:"9"`
 	C bool  `plenc:"3"`
 	D bool  `plenc:"4"`
-	J bool  `plenc:"10"`
+	H bool  `plenc:"8"`
 	E bool  `plenc:"5"`
 	F bool  `plenc:"6"`
-	L bool  `plenc:"12"`
 	G bool  `plenc:"7"`
-	H bool  `plenc:"8"`
-	I bool  `plenc:"9"`
 }
 
 // C03: both sides use indexes of 64 and above; the reader dropped 100 and 101
